@@ -474,6 +474,32 @@ def _body_containing(fnode, stmt):
     return None
 
 
+INPLACE_OPERATORS = {"iadd", "isub", "imul", "itruediv", "ifloordiv", "imod", "ipow", "imatmul", "iand", "ior", "ixor", "iconcat", "ilshift", "irshift"}
+
+
+def check_inplace_operators(prog, ctx):
+    """R14.5 (continued): block buffers are shared between an array and its copies / transposes / slices (copy() copies the dict, not
+    the arrays), so an in-place operator function applied to a block value writes into every array sharing it. No `operator.i<op>`
+    function, and no `out=` argument naming an existing block, may be used on block values."""
+    n = 0
+    for f in sorted(prog.funcs.values(), key=lambda f: f.fq):
+        if f.parent is not None:
+            continue
+        for node in ast.walk(f.node):
+            if isinstance(node, ast.Attribute) and isinstance(node.value, ast.Name) and node.value.id == "operator" and node.attr in INPLACE_OPERATORS:
+                n += 1
+                ctx.bad("R14.5", f, node, src(node),
+                        f"`{src(node)}` is an in-place operator function: applied to block values it writes into buffers shared with copies, "
+                        f"transposes and slices of the operand")
+            if isinstance(node, ast.Call) and any(k.arg == "out" for k in node.keywords):
+                n += 1
+                ctx.bad("R14.5", f, node, src(node)[:100], "a backend call with `out=` writes into an existing buffer, which may be shared")
+    if not n:
+        bb = prog.cls("BlockBase")
+        f = bb.methods.get("__iadd__") or next(iter(bb.methods.values()))
+        ctx.ok("R14.5", f"{f.file}:{f.qualname}", "no in-place operator function (operator.iadd, ...) and no out= argument anywhere in the package")
+
+
 def check_dynamic(prog, ctx):
     """dynamic features that would defeat the model are inventoried"""
     for f in prog.funcs.values():
@@ -541,11 +567,13 @@ def run(prog, ctx):
     ctx.rule("R14.3", "copy/copy_with return a new object with new _blocks/_phases dicts; the containers shared between "
              "copies (_chargemap, _extents, _indices) have no write site")
     ctx.rule("R14.4", "every slot of the class is assigned on every path of __init__, copy and copy_with")
-    ctx.rule("R14.5", "no in-place array write (augmented assignment, slice store) targets a block value reachable from a parameter")
+    ctx.rule("R14.5", "no in-place array write (augmented assignment, slice store, in-place operator function, out= argument) targets a block "
+             "value reachable from a parameter")
     ctx.rule("R14.7", "two-branch in-place switches install the same values in both branches (modify vs copy_with keyword sets agree)")
     ctx.rule("R14.6", "no dict is resized (del/pop/update/new key) inside a loop that iterates it")
     ctx.fact("effect on a fresh object (constructor result, copy(), copy_with(), dict()/list display, .copy() of a dict) is not an operand write")
     check_dynamic(prog, ctx)
+    check_inplace_operators(prog, ctx)
     an = get_analyzer(prog)
     ctx.notes.append(f"effect summaries converged in {an.rounds} rounds; {an.resolved_calls}/{an.total_calls} call sites resolved to a model")
     check_flags(prog, ctx, an)
